@@ -3,9 +3,18 @@
 //
 // A case is a history (hist.Case): an initial tree, a list of low-level
 // operations (Set*, SetChild of a fresh config, Remove, Merge, Child) applied
-// to the root or to pooled child handles, and a few read addresses. run
-// executes it against a fresh config and against the path/tree model in
-// lock-step and compares after every step.
+// to the root or to pooled handles, and a few read addresses. run executes it
+// against a fresh config and against the path/tree model in lock-step and
+// compares after every step.
+//
+// Dimensions of the quantifier the generator varies (hist.GenCfg): the
+// spelling of index segments (every integer syntax strconv.ParseInt accepts
+// with base 0, signs, digit separators; indices where the syntaxes differ in
+// value), names that only look like indices, the source of a Merge (generic
+// data, mixed Go representations, a fresh *Config kept in the case, the
+// *Config of the root / a child handle / a stand-alone config, such a config
+// embedded in generic data, top-level lists), the merge policy, the path
+// separator, and writes on either side after a merge.
 package c12
 
 import (
@@ -35,9 +44,13 @@ var names = []string{
 	"a.b", "a.c", "a.l", "a.0", "a.1", "a.b.c", "a.l.2", "a.b.0",
 	"l.0", "l.1", "l.2", "l.0.x", "l.1.x", "l.1.0",
 	"0", "1", "2", "b.0.0", "",
+	// settings below the elements of the receiver's own list part
+	"0.a", "1.a", "0.x", "1.x", "0.0", "2.b",
+	// names that look like numbers but are not list indices (model.NearIndexNames): ordinary named keys
+	"08", "l.08", "l.-1", "a.0x", "1e0", "l.1_", "+",
 }
 
-var treeKeys = []string{"a", "b", "c", "l", "x", "a", "b", "0", "1"}
+var treeKeys = []string{"a", "b", "c", "l", "x", "a", "b", "0", "1", "a", "l", "09", "-1"}
 
 func genCfg() *hist.GenCfg {
 	return &hist.GenCfg{
@@ -46,12 +59,18 @@ func genCfg() *hist.GenCfg {
 		MinOps: 3,
 		MaxOps: runlog.Pick(24, 40),
 		Kinds: []string{hist.Set, hist.Set, hist.Set, hist.Set, hist.Set, hist.Set, hist.Remove, hist.Remove, hist.Remove, hist.Remove,
-			hist.Child, hist.Child, hist.Child, hist.Child, hist.SetChild, hist.SetChild, hist.SetChild, hist.Merge, hist.Merge},
-		Trees:     &gen.TreeCfg{Depth: 2, Width: 3, Keys: treeKeys, Strings: gen.HostileStrings},
-		Prims:     &gen.TreeCfg{PrimOnly: true, NoNil: true, Strings: gen.HostileStrings},
-		Policies:  []model.Policy{model.Default},
+			hist.Child, hist.Child, hist.Child, hist.Child, hist.SetChild, hist.SetChild, hist.SetChild, hist.Merge, hist.Merge, hist.Merge},
+		Trees: &gen.TreeCfg{Depth: 2, Width: 3, Keys: treeKeys, Strings: gen.HostileStrings},
+		Prims: &gen.TreeCfg{PrimOnly: true, NoNil: true, Strings: gen.HostileStrings},
+		Policies: []model.Policy{model.Default, model.Default, model.Default, model.Default, model.Default, model.Default,
+			model.Replace, model.ReplaceArr, model.Append, model.Prepend},
 		NReads:    4,
 		ListNames: []string{"l", "a.l"},
+		Respell:   3,
+		WideIdx:   1,
+		WideIdxs:  []int{8, 9, 10, 11, 16, 17},
+		Sources:   6,
+		Seps:      []string{".", ".", ".", "/", "::", "|"},
 	}
 }
 
@@ -135,26 +154,55 @@ type route struct {
 	desc string
 }
 
-func decimal(s string) bool {
-	i, err := strconv.Atoi(s)
-	return err == nil && i >= 0 && strconv.Itoa(i) == s
-}
-
-// routes lists the equivalent ways of addressing (name, idx) from a node.
-func routes(n *model.Node, a hist.Addr, sep string) []route {
+// routes lists the equivalent ways of addressing (name, idx) from a node. An
+// index may be given as the idx argument or as a segment of the name, and as
+// a segment in every integer syntax (model.IndexSpellings); salt rotates
+// through the spellings.
+func routes(n *model.Node, a hist.Addr, sep string, salt int) []route {
 	rs := []route{{name: a.Name, idx: a.Idx, desc: "(name, idx)"}}
+	alt := func(i int) string {
+		sp := model.IndexSpellings(i)
+		k := (salt + i) % (len(sp) - 1)
+		if k < 0 {
+			k += len(sp) - 1
+		}
+		return sp[1+k]
+	}
+	// asSegment: the index i behind prefix (which may be empty: the receiver's own list part)
+	asSegment := func(prefix string, i int, given string) {
+		if prefix != "" {
+			prefix += sep
+		}
+		// alternating: the plain decimal segment, a segment in another integer syntax
+		d, s := strconv.Itoa(i), alt(i)
+		if (salt%2 == 0 && d != given) || s == given {
+			rs = append(rs, route{name: prefix + d, idx: -1, desc: "index as decimal path segment"})
+		} else {
+			rs = append(rs, route{name: prefix + s, idx: -1, desc: "index as path segment in another integer syntax"})
+		}
+	}
 	switch {
 	case a.Name == "":
 		// the list part of the receiver: the index as a name is the same address
-		rs = append(rs, route{name: strconv.Itoa(a.Idx), idx: -1, desc: "index as name"})
-	case sep != "" && a.Idx >= 0:
-		rs = append(rs, route{name: a.Name + sep + strconv.Itoa(a.Idx), idx: -1, desc: "dotted path"})
-	case sep != "" && a.Idx < 0:
-		if i := strings.LastIndex(a.Name, sep); i > 0 && decimal(a.Name[i+len(sep):]) {
-			k, _ := strconv.Atoi(a.Name[i+len(sep):])
-			if k <= model.MaxIdx {
-				rs = append(rs, route{name: a.Name[:i], idx: k, desc: "(prefix, idx)"})
-			}
+		asSegment("", a.Idx, "")
+	case a.Idx >= 0:
+		if sep != "" {
+			asSegment(a.Name, a.Idx, "")
+		}
+	case sep == "":
+		// the whole name is one segment
+		if sg := model.ClassifySeg(a.Name); sg.IsIdx {
+			rs = append(rs, route{name: "", idx: sg.Idx, desc: "(\"\", idx)"})
+			asSegment("", sg.Idx, a.Name)
+		}
+	default:
+		prefix, last := "", a.Name
+		if i := strings.LastIndex(a.Name, sep); i >= 0 {
+			prefix, last = a.Name[:i], a.Name[i+len(sep):]
+		}
+		if sg := model.ClassifySeg(last); sg.IsIdx && (prefix != "" || !strings.Contains(a.Name, sep)) {
+			rs = append(rs, route{name: prefix, idx: sg.Idx, desc: "(prefix, idx)"})
+			asSegment(prefix, sg.Idx, last)
 		}
 	}
 	// step by step with Child, if every node on the way is a container
@@ -196,14 +244,24 @@ func primEqual(o obs, want interface{}) (bool, string) {
 
 // checkRead compares everything the read API says about one address of a
 // handle with the model.
-func checkRead(st *hist.State, h hist.Handle, a hist.Addr, r *runlog.R) error {
+func checkRead(st *hist.State, h hist.Handle, a hist.Addr, salt int, r *runlog.R) error {
 	if !hist.ValidAddr(a.Name, a.Idx) {
 		return nil
 	}
 	segs := model.ParseAddr(a.Name, a.Idx, st.Sep)
 	want, merr := h.M.Lookup(segs)
 	var first obs
-	for k, rt := range routes(h.M, a, st.Sep) {
+	rts := routes(h.M, a, st.Sep, salt)
+	if merr == model.ErrMissing && len(rts) > 2 {
+		// nothing there: (name, idx) and one of the equivalent routes, rotating (cost)
+		k := salt % (len(rts) - 1)
+		if k < 0 {
+			k = -k
+		}
+		rts = []route{rts[0], rts[1+k]}
+	}
+	r.ClassIf(respelled(a, st.Sep), "read address with an index segment in non-decimal syntax")
+	for k, rt := range rts {
 		from := h
 		if len(rt.via) > 0 {
 			var err error
@@ -223,6 +281,7 @@ func checkRead(st *hist.State, h hist.Handle, a hist.Addr, r *runlog.R) error {
 			return fmt.Errorf("read %v on handle #%d: (name, idx) and the equivalent %s (%q,%d) disagree\n (name, idx): %v\n %s: %v",
 				a, h.ID, rt.desc, rt.name, rt.idx, first, rt.desc, o)
 		}
+		r.ClassIf(strings.Contains(rt.desc, "another integer syntax"), "route: index in another integer syntax")
 	}
 	o := first
 	fail := func(format string, args ...interface{}) error {
@@ -267,10 +326,53 @@ func checkRead(st *hist.State, h hist.Handle, a hist.Addr, r *runlog.R) error {
 			return err
 		}
 	default:
-		// a nil setting (padding, or merged in): the statement does not say what the getters return
+		// A nil setting: the padding of a list that was written past its end, or a nil that was merged in.
+		// In a plain tree of dictionaries and lists such an entry EXISTS (it occupies its index or key: it is
+		// counted, it can be removed, later elements keep their positions), so Has must say so. It holds no
+		// boolean and no number: Bool/Int/Uint/Float are documented to fail when the setting has no such
+		// value. What String and Child make of a nil is not stated (the library reads "null" and an empty
+		// config): both outcomes are accepted, but a child must be an empty config (nil counts as an empty
+		// container, reading decision 1).
 		r.Class("read:nil")
+		if o.HasErr || !o.Has {
+			return fail("the setting exists and holds nil (list padding or a merged nil): Has must be true (err=%v)", o.errHas)
+		}
+		if !(o.Berr && o.Ierr && o.Uerr && o.Ferr) {
+			return fail("the setting holds nil: Bool, Int, Uint and Float must fail")
+		}
+		if !o.ChildErr {
+			if o.Child == nil {
+				return fail("Child returned nil without an error")
+			}
+			if err := checkNode(hist.Handle{C: o.Child, M: model.NewCont(), ID: -1}, fmt.Sprintf("Child%v (a nil setting) of handle #%d", a, h.ID)); err != nil {
+				return err
+			}
+		}
+		if len(segs) == 1 && !segs[0].IsIdx {
+			// a named key of the receiver: CountField takes plain names only
+			if n, err := h.C.CountField(a.Name); err != nil || n < 0 || n > 1 {
+				return fail("CountField(%q) = %d, %v for an existing nil setting", a.Name, n, err)
+			}
+		}
 	}
 	return nil
+}
+
+// respelled: the address has an index segment that is not in plain decimal syntax.
+func respelled(a hist.Addr, sep string) bool {
+	if a.Name == "" {
+		return false
+	}
+	parts := []string{a.Name}
+	if sep != "" {
+		parts = strings.Split(a.Name, sep)
+	}
+	for _, p := range parts {
+		if sg := model.ClassifySeg(p); sg.IsIdx && strconv.Itoa(sg.Idx) != p {
+			return true
+		}
+	}
+	return false
 }
 
 // checkNode: the frame condition and the shape queries for one handle.
@@ -291,15 +393,10 @@ func checkNode(h hist.Handle, what string) error {
 	if a := h.C.IsArray(); len(h.M.A) > 0 && !a {
 		return fmt.Errorf("%s: IsArray() = false but the model has %d list elements", what, len(h.M.A))
 	}
-	// CountField(""): all top-level settings; named keys holding nil may or may not count
-	nonNil := 0
-	for _, v := range h.M.D {
-		if v.Kind != "nil" {
-			nonNil++
-		}
-	}
+	// CountField(""): "the total number of top-level settings". An entry that holds nil exists (see the
+	// nil case of checkRead), so it counts: list padding and named keys alike.
 	n, err := h.C.CountField("")
-	if err != nil || n < len(h.M.A)+nonNil || n > len(h.M.A)+len(h.M.D) {
+	if err != nil || n != len(h.M.A)+len(h.M.D) {
 		return fmt.Errorf("%s: CountField(\"\") = %d, %v; the model has %d list elements and %d named keys", what, n, err, len(h.M.A), len(h.M.D))
 	}
 	for _, k := range h.M.SortedKeys() {
@@ -309,6 +406,9 @@ func checkNode(h hist.Handle, what string) error {
 			return fmt.Errorf("%s: CountField(%q) failed: %v", what, k, err)
 		}
 		switch {
+		case v.Kind == "nil" && (n < 0 || n > 1):
+			// an empty table or "a list with 1 entry": the documentation allows both readings
+			return fmt.Errorf("%s: CountField(%q) = %d for a nil setting", what, k, n)
 		case v.Kind == "prim" && n != 1:
 			return fmt.Errorf("%s: CountField(%q) = %d for a primitive", what, k, n)
 		case v.Kind == "cont" && len(v.D) == 0 && len(v.A) > 0 && n != len(v.A):
@@ -333,12 +433,12 @@ func checkAll(st *hist.State, c Case, step int, info *hist.Info, r *runlog.R) er
 		}
 	}
 	if info == nil {
-		for _, a := range c.Reads {
-			if err := checkRead(st, st.Root, a, r); err != nil {
+		for k, a := range c.Reads {
+			if err := checkRead(st, st.Root, a, step+k, r); err != nil {
 				return err
 			}
-			for _, h := range st.Pool {
-				if err := checkRead(st, h, a, r); err != nil {
+			for j, h := range st.Pool {
+				if err := checkRead(st, h, a, step+k+j+1, r); err != nil {
 					return err
 				}
 			}
@@ -346,21 +446,67 @@ func checkAll(st *hist.State, c Case, step int, info *hist.Info, r *runlog.R) er
 		return nil
 	}
 	if op := c.Ops[step]; op.Kind != hist.Merge && info.Skipped == "" {
-		if err := checkRead(st, info.Receiver, op.Addr(), r); err != nil {
+		if err := checkRead(st, info.Receiver, op.Addr(), step, r); err != nil {
 			return err
 		}
 	}
+	if info.Skipped == "" && (info.Padded || step%4 == 0) {
+		// one of the nil entries (list padding, merged nils) the receiver's tree holds now, rotating
+		if a, ok := nilAddr(info.Receiver.M, st.Sep, step); ok {
+			r.Class("directed read of a nil entry")
+			if err := checkRead(st, info.Receiver, a, step, r); err != nil {
+				return err
+			}
+		}
+	}
 	if len(c.Reads) > 0 {
-		if err := checkRead(st, st.Root, c.Reads[step%len(c.Reads)], r); err != nil {
+		if err := checkRead(st, st.Root, c.Reads[step%len(c.Reads)], step+1, r); err != nil {
 			return err
 		}
 		if len(st.Pool) > 0 {
-			if err := checkRead(st, st.Pool[step%len(st.Pool)], c.Reads[(step+1)%len(c.Reads)], r); err != nil {
+			if err := checkRead(st, st.Pool[step%len(st.Pool)], c.Reads[(step+1)%len(c.Reads)], step+2, r); err != nil {
 				return err
 			}
 		}
 	}
 	return nil
+}
+
+// nilAddr returns the address of one of the nil entries below n (chosen by
+// salt) that can be written as an address: any depth with a path separator,
+// otherwise a name, an index, or an index below a name.
+func nilAddr(n *model.Node, sep string, salt int) (hist.Addr, bool) {
+	var found [][]model.Seg
+	n.Walk(nil, func(p []model.Seg, m *model.Node) {
+		if m.Kind != "nil" || len(p) == 0 || len(p) > 4 {
+			return
+		}
+		if sep == "" && !(len(p) == 1 || (len(p) == 2 && !p[0].IsIdx && p[1].IsIdx)) {
+			return
+		}
+		found = append(found, p)
+	})
+	if len(found) == 0 {
+		return hist.Addr{}, false
+	}
+	if salt < 0 {
+		salt = -salt
+	}
+	p := found[salt%len(found)]
+	last := p[len(p)-1]
+	switch {
+	case len(p) == 1 && last.IsIdx:
+		return hist.Addr{Name: "", Idx: last.Idx}, true
+	case len(p) == 1:
+		return hist.Addr{Name: last.Name, Idx: -1}, true
+	case last.IsIdx && !p[len(p)-2].IsIdx || last.IsIdx && sep != "":
+		j := sep
+		if j == "" {
+			j = "."
+		}
+		return hist.Addr{Name: model.JoinSegs(p[:len(p)-1], j), Idx: last.Idx}, true
+	}
+	return hist.Addr{Name: model.JoinSegs(p, sep), Idx: -1}, true
 }
 
 func trace(c Case, upto int) string {
@@ -377,6 +523,9 @@ func trace(c Case, upto int) string {
 		}
 	}
 	fmt.Fprintf(&b, "\n  pathsep=%v", c.PathSep)
+	if c.Sep != "" {
+		fmt.Fprintf(&b, " separator=%q", c.Sep)
+	}
 	return b.String()
 }
 
@@ -392,7 +541,7 @@ func runCase(c Case, r *runlog.R) error {
 	if err := checkAll(st, c, -1, nil, r); err != nil {
 		return fmt.Errorf("initial state: %v%s", err, trace(c, -1))
 	}
-	nt := false
+	nt, afterCfgMerge := false, false
 	for i, op := range c.Ops {
 		info, err := st.Apply(op)
 		if err != nil {
@@ -412,6 +561,23 @@ func runCase(c Case, r *runlog.R) error {
 		r.ClassIf(info.Padded, "padding")
 		r.ClassIf(info.Shifted, "shifting removal")
 		r.ClassIf(info.Retired > 0, "merge retired handles")
+		if op.Kind == hist.Merge && info.Skipped == "" {
+			r.Class("merge source: " + info.Source)
+			r.Class("merge policy: " + op.Policy.String())
+			isCfg := op.From == hist.FromConfig || op.From == hist.FromHandle || op.From == hist.FromEmbed
+			r.ClassIf(isCfg && info.SrcList && !info.SrcDict, "merge from a *Config whose top level is a list")
+			r.ClassIf(isCfg && info.SrcList && info.SrcDict, "merge from a *Config whose top level is mixed")
+			for k := range info.Reprs {
+				r.Class("merge source representation: " + k)
+			}
+		}
+		r.ClassIf(info.SrcSide, "write on the source side of an earlier merge from a *Config")
+		r.ClassIf(info.DstSide, "write into what an earlier merge from a *Config copied in")
+		if info.SrcSide || info.DstSide {
+			afterCfgMerge = true
+		}
+		r.ClassIf(op.Kind != hist.Merge && info.Skipped == "" && respelled(op.Addr(), st.Sep), "op address with an index segment in non-decimal syntax")
+		r.ClassIf(op.Kind != hist.Merge && info.Skipped == "" && op.Idx > 7, "op address with an index > 7")
 		if info.Overlap || (info.ViaHandle && info.Wrote) {
 			nt = true
 		}
@@ -423,7 +589,9 @@ func runCase(c Case, r *runlog.R) error {
 		return fmt.Errorf("final state: %v%s", err, trace(c, len(c.Ops)))
 	}
 	r.NonTrivialIf(nt)
+	r.ClassIf(afterCfgMerge, "history writes on either side after a merge from a *Config")
 	r.ClassIf(c.PathSep, "with PathSep")
+	r.ClassIf(c.PathSep && c.Sep != "", "with PathSep other than \".\": "+c.Sep)
 	r.ClassIf(!c.PathSep, "without PathSep")
 	r.ClassIf(st.Root.M.Mixed(), "final tree has a mixed node")
 	return nil
@@ -431,11 +599,16 @@ func runCase(c Case, r *runlog.R) error {
 
 var subHist = runlog.Register(&runlog.Sub[Case]{
 	Name: "tree-histories",
-	Rule: "histories of 3-24 (thorough: 3-40) operations SetBool/Int/Uint/Float/String, SetChild(fresh config from a tree), Remove, Merge(default policy), Child on the root and (40%) on pooled child handles (index modulo pool size, pool of 6); addresses from a small overlapping pool of names, dotted paths, index-like names and explicit indices 0..3 (past the end included), 3 of 4 cases with PathSep(\".\"); half of the cases start from a random tree. After every step: generic dump of the root and of every pooled handle equals the path/tree model (shared by pointer with the handles), IsDict/IsArray/CountField agree, and 4 fixed addresses are read through every getter, Has and Child via (name, idx), the equivalent dotted path and Child-by-Child navigation. Non-trivial: a removal or write hit a node an earlier write of the same history put there (or an ancestor of it), or a write went through a pooled child handle. Distinct: hash of the whole case.",
-	Gen:  genCase,
-	Run:  runCase,
+	Rule: "histories of 3-24 (thorough: 3-40) operations SetBool/Int/Uint/Float/String, SetChild(fresh config from a tree), Remove, Merge, Child on the root and (40%) on pooled handles (index modulo pool size, pool of 6: child handles, attached fresh configs and stand-alone configs). " +
+		"Addresses: a small overlapping pool of names, dotted paths, index-like names, settings below elements of the receiver's own list part, names that look like numbers but are no indices (08, -1, 0x, 1e0, 1_, +), explicit indices 0..3 (past the end included; 10% from 8,9,10,11,16,17 where octal, hexadecimal and decimal spellings differ); 3 of 4 cases with PathSep(\".\"). " +
+		"30% of the index segments of op and read addresses, and of the numeric object keys of initial/attached/merged trees, are written in another integer syntax (+i, 0i/00i/0_i octal, 0o, 0O, 0x, 0X, 0x0, 0x_, 0b, 0B, digit separators, -0), 20% of the explicit indices are moved into the name as a last segment in any syntax. " +
+		"Merge: policy default (60%) or replace/replace-arr/append/prepend; source generic data (40%), mixed Go representations (typed maps/slices, arrays, structs, pointers, named types, embedded *Config), a fresh *Config built from a tree (half of them top-level lists of objects) that stays in the case as a pooled handle, the *Config of an existing handle (the root, a child handle, a stand-alone or detached config; a source that contains the receiver or that the merge itself would modify is skipped), or generic data that embeds such a *Config under a (dotted) key or as a list element; addresses inside merged trees are fed to the later operations through the receiver and through the source. Half of the cases start from a random tree. " +
+		"After every step: generic dump of the root and of EVERY pooled handle (incl. all former merge sources: Merge copies, so a later write on either side must not show on the other) equals the path/tree model (shared by pointer with the handles), IsDict/IsArray agree, CountField(\"\") = list elements + named keys (nil entries count), CountField(name) agrees; the step's address, one of 4 fixed addresses through the root and one through a pooled handle, and (after padding writes and every 4th step) one of the nil entries the receiver's tree holds are read through every getter, Has and Child via (name, idx), via the index as a decimal path segment or a segment in another integer syntax (alternating), via (prefix, idx) and via Child-by-Child navigation: all routes must observe the same and agree with the model. A nil entry (list padding, merged nil) exists: Has true, Bool/Int/Uint/Float fail, a Child (if given) is an empty config, CountField(name) is 0 or 1; String is not asserted. " +
+		"Non-trivial: a removal or write hit a node an earlier write of the same history put there (or an ancestor of it), or a write went through a pooled handle. Distinct: hash of the whole case.",
+	Gen: genCase,
+	Run: runCase,
 })
 
-func TestTreeHistories(t *testing.T) { subHist.Check(t, 30000, 2000000) }
+func TestTreeHistories(t *testing.T) { subHist.Check(t, 26000, 2000000) }
 
 func TestReplay(t *testing.T) { runlog.ReplayMain(t) }
